@@ -205,7 +205,13 @@ def m_unwrap_or_default(tr, c):
     tr.emit(f"if ({tr.lv(Loc(o.node.discr, o.idxs))} == {gi}) {{")
     tr.copy(d, Loc(o.node.variants[gi][1].fields[0], o.idxs))
     tr.emit("} else {")
-    zero_default(tr, d)
+    tyn = d.node.ty.name if d.node.ty is not None and d.node.ty.kind == "path" else None
+    dm = REG.lookup(f"<{tyn} as Default>::default") if tyn else None
+    if dm is not None and tyn not in ("Option", "Vec"):
+        import itermodels
+        dm(tr, itermodels.ICtx(tr, c.inst, f"<{tyn} as Default>::default", [], d))
+    else:
+        zero_default(tr, d)
     tr.emit("}")
 
 
@@ -292,5 +298,25 @@ def m_abs_diff(tr, c):
     c.ret(VScalar(f"(({a.expr}) > ({b.expr}) ? ({a.expr}) - ({b.expr}) : ({b.expr}) - ({a.expr}))", a.ctype))
 
 
+def t_cell(tr, ty, name, dims, storage, g):
+    """Cell<T> / RefCell<T> (single-threaded interior mutability): the value itself"""
+    return tr.alloc(ty.args[0], name, dims, storage, g)
+
+
+@model("Cell::get", "Cell::take", "Cell::into_inner", doc="Cell accessors")
+def m_cell_get(tr, c):
+    cell = tr.deref(c.args[0]) if not isinstance(c.args[0], VLoc) or c.args[0].loc.node.kind == "ref" else c.args[0].loc
+    d = c.dest()
+    tr.copy(d, cell)
+    if c.key.endswith("take"):
+        zero_default(tr, cell)
+
+
+@model("Cell::new", doc="Cell::new(v)")
+def m_cell_new(tr, c):
+    c.ret(c.args[0])
+
+
 def install(tr):
     tr.type_models.setdefault("Range", t_range)
+    tr.type_models.setdefault("Cell", t_cell)
